@@ -82,17 +82,26 @@ class SI:
     def __pos__(s):
         return s
 
-    def __floordiv__(s, o):
+    def _divmod(s, o):
+        """Python floor division / modulo by a positive divisor (side obligation: divisor > 0)."""
         o = SI.lift(o)
-        if not z3.is_int_value(o.t) or o.t.as_long() <= 0:
-            raise Unsupported("floor division by a non-constant or non-positive int")
-        return SI(s.t / o.t)   # z3 int div == floor for positive divisor
+        if z3.is_int_value(o.t) and o.t.as_long() > 0:
+            return SI(s.t / o.t), SI(s.t % o.t)      # z3 int div/mod == floor semantics for a positive divisor
+        c = cur()
+        c.oblige("int.divisor_positive", o.t > 0, kind="side")
+        key = ("divmod", s.t.get_id(), o.t.get_id())
+        if key not in c.ghost:
+            q = z3.Int(c.fresh_name("quot"))
+            r = z3.Int(c.fresh_name("rem"))
+            c.assume(z3.And(s.t == q * o.t + r, 0 <= r, r < o.t))
+            c.ghost[key] = (SI(q), SI(r))
+        return c.ghost[key]
+
+    def __floordiv__(s, o):
+        return s._divmod(o)[0]
 
     def __mod__(s, o):
-        o = SI.lift(o)
-        if not z3.is_int_value(o.t) or o.t.as_long() <= 0:
-            raise Unsupported("mod by a non-constant or non-positive int")
-        return SI(s.t % o.t)
+        return s._divmod(o)[1]
 
     def __truediv__(s, o):
         return s.tofloat() / o
